@@ -420,7 +420,9 @@ VNack(S, e, S2) ==
     IN
     Chk("C03:nack-resurrects", \A d \in ids : IsDone(S, d) => SameDel(S, S2, d))
     \cup Chk("C06:nack-deadletters-wrongly",
-        \A d \in D : DLable(S, d) /\ OutMay(S, d, e.t0) /\ OnlyDone(S, S2, d))
+        \* (a late nack for a delivery of a subscription that was deleted meanwhile may
+        \* still dead-letter it: the property only excludes acknowledged and expired ones)
+        \A d \in D : DLable(S, d) /\ S.del[d].exp >= e.t0 /\ OnlyDone(S, S2, d))
     \cup Chk("C06:nack-keeps-over-budget",
         \A d \in ids : (OutDef(S, d, e.t1) /\ DLable(S, d)) => d \in D)
     \cup Chk("C04:nack-reschedules",
@@ -463,9 +465,11 @@ VSeekTime(S, e, S2) ==
         \A d \in DelsOf(S, s) :
            LET r == S.del[d] IN
            IF r.exp > e.t1            \* certainly retained
-           THEN IF r.pub > e.T THEN SeekOne(S, e, S2, d, TRUE)
-                ELSE IF r.pub < e.T THEN SeekOne(S, e, S2, d, FALSE)
-                ELSE SeekOne(S, e, S2, d, TRUE) \/ SeekOne(S, e, S2, d, FALSE)
+           \* e.le lists the deliveries published at or before the target, compared
+           \* at full clock resolution by the recorder (the floored times of the
+           \* state cannot decide equality)
+           THEN IF d \in RangeOf(e.le) THEN SeekOne(S, e, S2, d, FALSE)
+                ELSE SeekOne(S, e, S2, d, TRUE)
            ELSE IF r.exp < e.t0       \* certainly no longer retained: never revived
            THEN SameDel(S, S2, d)
            ELSE SameDel(S, S2, d) \/ SeekOne(S, e, S2, d, TRUE) \/ SeekOne(S, e, S2, d, FALSE))
@@ -689,6 +693,37 @@ V(S, e, S2) ==
     [] e.op = "List" -> VList(S, e, S2)
     [] e.op = "Failed" -> VFailed(S, e, S2)
     [] OTHER -> {"C00:unknown-op"}
+
+(***************************************************************************)
+(* Clauses that apply to EVERY step, whatever the operation.               *)
+(*   C01: a delivery that is outstanding for certain only stops being      *)
+(*        outstanding for one of the reasons the property lists.           *)
+(*   C02: an operation addressed to one subscription leaves the deliveries *)
+(*        of every other subscription alone (dead-letter forwarding only   *)
+(*        ADDS deliveries elsewhere).                                      *)
+(***************************************************************************)
+Retired(S, e, S2, d) ==
+  \/ e.op = "Ack" /\ d \in Named(S, e)
+  \/ e.op = "Pull" /\ d[2] \in SubsNamed(S, e.sub) /\ DLable(S, d)
+  \/ e.op = "Nack" /\ d \in Named(S, e) /\ DLable(S, d)
+  \/ e.op = "DLSweep" /\ DLable(S, d)
+  \/ e.op \in {"DeleteSub", "ExpireSubs"} /\ ~SubLive(S2, d[2])
+  \/ e.op \in {"SeekTime", "SeekSnap"} /\ d[2] \in SubsNamed(S, e.sub)
+
+Addressed(S, e) ==   \* the subscriptions an operation is allowed to touch deliveries of
+  CASE e.op \in {"Pull", "SeekTime", "SeekSnap"} -> SubsNamed(S, e.sub)
+    [] e.op \in {"DeleteSub", "UpdateSub", "SetDelay"} -> SubsNamed(S, e.name)
+    [] e.op \in {"Ack", "ModAck", "Nack"} -> {d[2] : d \in Named(S, e)}
+    [] e.op \in {"CreateTopic", "DeleteTopic", "CreateSub", "CreateSnap", "DeleteSnap", "Get", "List", "Tick"} -> {}
+    [] OTHER -> DOMAIN S.subs      \* publish, background jobs, failed attempts: judged by their own clauses
+
+VGeneric(S, e, S2) ==
+  Chk("C01:outstanding-delivery-lost",
+      \A d \in Dels(S) :
+         (OutDef(S, d, e.t1) /\ ~(d \in Dels(S2) /\ ~IsDone(S2, d) /\ S2.del[d].exp >= S.del[d].exp))
+           => Retired(S, e, S2, d))
+  \cup Chk("C02:other-subscription-affected",
+      \A d \in Dels(S) : d[2] \notin Addressed(S, e) => SameDel(S, S2, d))
 
 (***************************************************************************)
 (* Ghost (history) state: a deterministic function of the step.            *)
